@@ -252,3 +252,9 @@ def nontrivial(case, result):
     if op.endswith("_be"):
         return result != toks[3]
     return any(x != 0 for x in ls)
+
+
+def prebuild(root):
+    """translator (its error text is returned): coq/Generated/EndianGen.v from /repo/src/buint/endian.rs and /repo/src/bint/endian.rs
+    (Proofs/EndianGenTie*.v: every generated function proved equal to the hand-written model Model/Endian.v)"""
+    return run_translator(root, "rs2v_endian.py", "C15")
